@@ -1,12 +1,30 @@
 #!/bin/sh
-# One-time setup after a fresh restore (offline): regenerate Gen/*.lean from /repo, build the
-# Lean library (all models, lemmas, property theorems) and the qbmodel executable.
+# One-time setup after a fresh restore (offline): regenerate Gen/*.lean from /repo and build the
+# Lean modules + model executables of every property claimed in MANIFEST.json.
 set -e
 cd "$(dirname "$0")/.."
 test -f "${VERIF_REPO:-/repo}/include/config.h" || { echo "missing include/config.h in /repo (run ./configure there)"; exit 1; }
 python3 tools/genmain.py
 python3 tools/extract.py || true
-cd lean
-lake build QbVerif 2>&1 | grep -v "^warning\|^$\|Hint:\|Note:\|\[apply\]" | tail -40
-for m in Mains/*.lean; do n=$(basename $m .lean | tr A-Z a-z); lake build qb_$n 2>&1 | tail -3; test -x .lake/build/bin/qb_$n; done
-echo "setup ok"
+python3 - <<'PY'
+import json, os, subprocess, sys
+m = json.load(open("MANIFEST.json"))
+targets = []
+for c in m["checks"]:
+    p = os.path.join("lean", "theorems.d", c["property_id"] + ".json")
+    if os.path.exists(p):
+        t = json.load(open(p))
+        targets += t.get("modules", []) + ["qb_" + d.lower() for d in t.get("drivers", [])]
+targets = sorted(set(targets))
+print("building:", " ".join(targets))
+fail = 0
+for t in targets:
+    os.makedirs("build", exist_ok=True)
+    r = subprocess.run(["flock", "../build/.lean.lock", "lake", "build", t], cwd="lean", stdout=subprocess.PIPE, stderr=subprocess.STDOUT, text=True)
+    if r.returncode != 0:
+        fail += 1
+        print("FAILED:", t)
+        print("\n".join(l for l in r.stdout.splitlines() if "error" in l.lower())[:2000])
+print("setup %s (%d targets, %d failed)" % ("ok" if not fail else "INCOMPLETE", len(targets), fail))
+# a failed target is reported by the property's own check; setup itself stays usable
+PY
